@@ -1,7 +1,14 @@
 #!/bin/bash
-# Builds the framework offline from files on disk only.
+# Builds the framework offline from files on disk only: the plain harness, the
+# instrumented scratch copy of /repo and the harness against it (plain and
+# -race), then runs the instrumentation self-check (repo suite on the copy).
 cd "$(dirname "$0")" || exit 2
 export GOFLAGS=-mod=mod GOPROXY=off GOSUMDB=off GOTOOLCHAIN=local
 mkdir -p .cache/bin evidence replays
 go build -o .cache/bin/verif ./cmd/verif || exit 2
+tools/simbuild.sh || exit 2
+tools/simbuild.sh race || exit 2
+if [ "${VERIF_SKIP_SELFCHECK:-0}" != "1" ]; then
+  tools/selfcheck.sh || exit 2
+fi
 echo "setup ok"
